@@ -1133,6 +1133,45 @@ def r14s(ctx, rep, rule="R14s"):
         "eqv compares two strings by their contents (PartialEq on the shared string): two distinct strings that spell the same are "
         "eqv? / eq?, memq and assq find a string that is merely spelled alike, and mutating one of them changes the answer", content or [f.span])
 
+
+def r14t(ctx, rep, rule="R14t"):
+    """eqv? knows every kind of value that has no location"""
+    facts = ctx["facts"]
+    rep.rule(rule, "(eqv? x x) holds for everything: Vm::eqv answers 'same object' by pointer only when both operands are heap "
+             "references; a value that Heap::maybe_put leaves inline (it lists them: numbers, booleans, characters, the empty list, "
+             "the unspecified value, the undefined value) reaches the type match, where it needs an arm of its own. The two tables "
+             "must agree: every variant maybe_put returns as it is has an arm in eqv's match. A missing arm makes such a value "
+             "different from itself — (let ((u (if #f #f))) (eq? u u)) was #f, and so was equal? on two lists that hold it.")
+    mp = need(rep, rule, facts, "marwood::vm::heap::Heap::maybe_put")
+    ev = need(rep, rule, facts, "marwood::vm::compare::<impl marwood::vm::Vm>::eqv")
+    if mp is None or ev is None:
+        return
+    VC = "marwood::vm::vcell::VCell"
+    inline = set()
+    # variants of maybe_put's match whose arm returns the value unchanged: their target block does not call Heap::alloc / insert
+    for sw in disc_switches(facts, mp, VC):
+        by_target = {}
+        for v, tg in sw["arms"].items():
+            by_target.setdefault(tg, []).append(v)
+        for tg, vs in by_target.items():
+            reach = mp.reach_from(tg)
+            allocs = [bb for bb, t in mp.calls() if bb in reach and (callee(t) or "").endswith(("Heap::alloc", "HashMap::<K, V, S, A>::get"))]
+            if not allocs:
+                inline |= set(vs)
+    inline.discard("Ptr")
+    rep.floor(rule, "VCell variants maybe_put leaves inline", len(inline), 6)
+    armed = set()
+    for sw in disc_switches(facts, ev, VC):
+        for v, tg in sw["arms"].items():
+            if tg != sw["otherwise"]:
+                armed.add(v)
+    for v in sorted(inline):
+        key = "%s|eqv|%s" % (rule, v)
+        (rep.ok if v in armed else rep.fail)(
+            rule, key, "eqv has an arm for %s" % v if v in armed else
+            "Heap::maybe_put leaves a %s value inline, and Vm::eqv has no arm for it: two such values fall through to `false`, so the "
+            "value is not eqv? (nor eq?, nor equal?) to itself" % v, [ev.span])
+
 def run(ctx, rep):
     r14a(ctx, rep)
     r14b(ctx, rep)
@@ -1150,6 +1189,7 @@ def run(ctx, rep):
     r14q(ctx, rep)
     r14r(ctx, rep)
     r14s(ctx, rep)
+    r14t(ctx, rep)
     from . import popbalance
     popbalance.r_arity_table(ctx, rep, "R14n", R7RS_ARITY_C14, "the list and vector procedures C14 names")
     from .C15 import fresh_results
